@@ -13,7 +13,7 @@ def status_table():
         c = e.get('coverage', {})
         rows.append('| %s | %d | %d | %d | %d | %s | %s | %.1f |' % (
             e.get('property_id', os.path.basename(f)[:-5]), len(c.get('functions_under_contract', [])), c.get('obligations', 0), c.get('discharged', 0),
-            len(c.get('known_findings') or []), ((c.get('vacuity') or {}).get('covers_undecided') or 0), e.get('level', '?'), c.get('solver_time_s', 0.0)))
+            len(c.get('known_findings') or []) + sum(int(b.get('known_findings') or 0) for b in (c.get('bounded_checks') or [])), ((c.get('vacuity') or {}).get('covers_undecided') or 0), e.get('level', '?'), c.get('solver_time_s', 0.0)))
     return '\n'.join(rows)
 
 def findings_table():
@@ -49,7 +49,7 @@ def seeded_table():
         if len(obls) > 3:
             more = ' (+%d)' % (len(obls) - 3)
         rows.append('| %s | %s | %s | %s | %s%s |' % (
-            id, meta.get('summary', '').replace('|', '\\|'), 'alarms' if r['own_property_check_alarms'] else ('silent' if r['caught'] else 'MISSED'),
+            id, meta.get('summary', '').replace('|', '\\|'), 'alarms' if r['own_property_check_alarms'] else ('silent' if r['caught'] else ('undecided (exit 2: stale clauses)' if r.get('exit') == 2 else ('not a violation' if meta.get('expected') == 'not-a-violation' else 'MISSED'))),
             ' '.join(r['caught_by_checks']) or 'none', '<br>'.join('`%s`' % o for o in obls[:3]), more))
     return '\n'.join(rows)
 
